@@ -61,7 +61,7 @@ def vclass(vs):
 def run(ctx):
     thorough = ctx.tier == "thorough"
     rng = random.Random(ctx.seed)
-    n = 4000 if thorough else 600
+    n = 20000 if thorough else 600
     ctx.tlc_ok("PluginCases", CFG % n, workers=1, timeout=3000, heap="8g")
     cases = ctx.read_ndjson("c28_cases.ndjson")
     root = os.path.join(ctx.scratch, "c28")
@@ -96,7 +96,7 @@ def run(ctx):
         okd += 1
     # ---------------- (b) start-up resolution through the binary ----------------
     cli = climod.Cli(ctx)
-    sample = cases[: (600 if thorough else 120)]
+    sample = cases[: (1500 if thorough else 120)]
     jobs, meta = [], []
     for c in sample:
         h = os.path.join(root, "h%d" % c["id"])
@@ -150,7 +150,7 @@ def run(ctx):
     srv = serve(www)
     base = "http://127.0.0.1:%d" % srv.server_address[1]
     jobs, meta = [], []
-    for c in cases[: (500 if thorough else 100)]:
+    for c in cases[: (1200 if thorough else 100)]:
         ins = c["install"]
         d = os.path.join(www, "r%d" % c["id"])
         os.makedirs(d)
